@@ -11,6 +11,7 @@ import Driver.CtrlEng
 import Driver.ListerEng
 import Driver.LinEng
 import Driver.JoinEng
+import Driver.TypedEng
 open Driver
 
 partial def loopFilter (h : IO.FS.Stream) (out : IO.FS.Stream) (univ : List KC.Obj) : IO Unit := do
@@ -96,12 +97,33 @@ partial def loopJoin (h : IO.FS.Stream) (out : IO.FS.Stream) (st : JState) : IO 
     out.putStrLn "bad parse"
     loopJoin h out st
 
+partial def loopTyped (h : IO.FS.Stream) (out : IO.FS.Stream) (st : YState) : IO Unit := do
+  let line ← h.getLine
+  if line.isEmpty then return ()
+  match parseLine line with
+  | some e =>
+    let (st', o) := typedLine st e
+    out.putStrLn o
+    loopTyped h out st'
+  | none =>
+    out.putStrLn "bad parse"
+    loopTyped h out st
+
+partial def loopRest (h : IO.FS.Stream) (out : IO.FS.Stream) : IO Unit := do
+  let line ← h.getLine
+  if line.isEmpty then return ()
+  match parseLine line with
+  | some e => out.putStrLn (restLine e); loopRest h out
+  | none => out.putStrLn "bad parse"; loopRest h out
+
 def main (args : List String) : IO UInt32 := do
   let stdin ← IO.getStdin
   let stdout ← IO.getStdout
   match args with
   | ["filter"] => loopFilter stdin stdout []; return 0
   | ["cache"] => loopCache false stdin stdout {}; return 0
+  | ["typed"] => loopTyped stdin stdout {}; return 0
+  | ["rest"] => loopRest stdin stdout; return 0
   | ["join"] => loopJoin stdin stdout {}; return 0
   | ["lin"] => loopLin stdin stdout {}; return 0
   | ["lister"] => loopLister stdin stdout {}; return 0
